@@ -31,7 +31,7 @@ def check_one(ctx, key: str, label: str, always_single: bool):
     ctx.touch(f)
     g = cfg_of(f)   # conditions normalised with single-definition locals substituted
     env = single_defs(f)
-    sites = [c for fn_, c in sched.assignment_sites(P, f) if fn_.node is f.node]
+    sites = [c for fn_, c in sched.assignment_sites(P, f) if same_fn(fn_, f)]
     ctx.count_min(f"Assignment( sites in the {label} scheduler", len(sites), 1)
     params = f.params()
     ctx.need(len(params) >= 3, f"{label} scheduler must take (s, results, pipelines)")
